@@ -240,6 +240,22 @@ def zone_task(task):
                 sh.bad("zone-history", "zhist:fresh-vs-file:%s" % ("t<0" if t < 0 else "t>=0"),
                        "%s: fresh handle says %d -> %d, file says offset %+d" % (name, t, fresh[t], off),
                        dict(zone=name, query="L %d" % t))
+    # local stamps to be mapped back (zif_utc_time): around the same transitions, in the skipped and in the repeated hour
+    us = []
+    for i in idx:
+        for off in set(o for o in (z.offset(z.trs[i] - 1), z.offset(z.trs[i])) if o is not None):
+            for d in (-1, 0, 1, 1800, 3599, 3600, -1800):
+                us.append(z.trs[i] + off + d)
+    us = sorted(set(us))
+    reqs = []
+    for u in us:
+        reqs += ["O " + path, "U %d" % u]
+    ans, deaths = drive(drv, reqs, sh, cpu=3, wall=60)
+    freshu = {}
+    for k, u in enumerate(us):
+        a = ans[2 * k + 1] if 2 * k + 1 < len(ans) else None
+        if a is not None and a.lstrip("-").isdigit():
+            freshu[u] = int(a)
     for h in range(nhist):
         kind = ["random", "alternate", "descending", "neg-first", "far-first", "copy"][h % 6]
         if kind == "random":
@@ -261,7 +277,11 @@ def zone_task(task):
         for k, t in enumerate(seq):
             if kind == "copy" and k == 10:
                 reqs.append("C")
-            reqs.append(("U %d" % t) if (kind == "random" and k % 7 == 3) else ("L %d" % t))
+            reqs.append("L %d" % t)
+            if us and k % 3 == 1:
+                # a local stamp near the instant just looked up, or anywhere: its answer must not depend on what is cached
+                near = [u for u in us if abs(u - t) < 3 * 86400]
+                reqs.append("U %d" % rng.choice(near if near and rng.random() < .7 else us))
         ans, deaths = drive(drv, reqs, sh, cpu=3, wall=60, preamble=["O " + path])
         for ix, r in deaths:
             sh.bad("zone-history", "zhist:%s:died:%s" % (kind, r.san_kind() or r.sig or r.rc),
@@ -269,6 +289,19 @@ def zone_task(task):
                    dict(zone=name, file=path, driver_requests=reqs[:ix + 1], stderr=r.err[-800:].decode("latin-1")))
         qi = 0
         for rq, a in zip(reqs, ans):
+            if rq.startswith("U ") and a is not None:
+                u = int(rq[2:])
+                if u in freshu:
+                    c = ("zone-utc", kind, "u<0" if u < 0 else "u>=0")
+                    if a == str(freshu[u]):
+                        sh.ok("zone-history", c)
+                    else:
+                        sh.bad("zone-history", "zhist:utc:%s:%s" % (kind, c[2]),
+                               "%s: zif_utc_time(%d) = %s after history %s, on a fresh handle it is %d" %
+                               (name, u, a, kind, freshu[u]),
+                               dict(zone=name, file=path, driver_requests=reqs[:reqs.index(rq) + 1], expected=freshu[u], observed=a),
+                               cls=c)
+                continue
             if not rq.startswith("L ") or a is None:
                 continue
             t = int(rq[2:])
@@ -392,8 +425,8 @@ def main(tier, seed):
                 "histories: permutations, junk prefixes, >255 and >512 lines, duplicates, reversal, command-line "
                 "arguments, mixed CRLF/LF line ends; dadd with the reference on the command line and durations (valid, compound, "
                 "valid-prefix-plus-junk) as stdin lines; zones: %d zone images x histories (random, alternating around a boundary, descending, "
-                "negative-first, far-future-first, after zif_copy) of zif_local_time/zif_utc_time calls against the "
-                "fresh-handle answer; several zones in one run (dzone matrices and dconv --from-zone/--zone pairs, incl. "
+                "negative-first, far-future-first, after zif_copy) of zif_local_time and zif_utc_time calls (local stamps in skipped and repeated hours) against the "
+                "fresh-handle answers; several zones in one run (dzone matrices and dconv --from-zone/--zone pairs, incl. "
                 "zone names that are prefixes of each other) against one-zone-per-run; compared with the "
                 "fresh-handle answer and the zone-file oracle; the tool histories are repeated on the 'pat' build (automatic "
                 "variables pre-filled with a pattern). distinct_nontrivial = distinct (option set | zone "
